@@ -40,6 +40,11 @@ type c10Job struct {
 	Depth int    `json:"depth,omitempty"`
 	Hex   string   `json:"hex,omitempty"`
 	Skip  []string `json:"skip,omitempty"` // stage families not to run
+	// JSONEncFactor (parent side only): the CPU budget of the json-encode stages is multiplied by this when > 1.  The
+	// budget unit is calibrated on a pipeline WITHOUT the JSON encoders (see c10Calibrate); encoding/json + one nodeJSON
+	// per AST node costs ~20x that per node even where it is linear, so the long-run campaign (wide, flat trees of
+	// 10^5 nodes) gives those stages their own allowance instead of flagging linear work.
+	JSONEncFactor int64 `json:"-"`
 }
 
 func init() {
@@ -321,7 +326,7 @@ func c10RunJob(wp **c10Worker, j c10Job, cpuBudgetMs int64) c10JobResult {
 			rss := procRSSMiB(pid)
 			over := ""
 			switch {
-			case cpu > cpuBudgetMs:
+			case cpu > cpuBudgetMs && !(j.JSONEncFactor > 1 && c10StageFamily(stage) == "json-encode" && cpu <= cpuBudgetMs*j.JSONEncFactor):
 				over = "cpu-budget"
 			case rss > 6144:
 				over = "oom"
@@ -368,6 +373,8 @@ var c10SiteFamilies = []struct{ sub, name string }{
 	{"schema/validate.", "schema-validate"},
 	{"x/exp/types.", "exptypes-coerce"},
 	{"internal/parser.(*parser).", "text-parser"},
+	{"internal/parser.(*scanner).", "text-tokenizer"},
+	{"schema/internal/parser.(*lexer).", "schema-text-lexer"},
 	{"internal/parser.marshalChildNode", "cedar-marshal"},
 	{"marshalCedar", "cedar-marshal"},
 	{"internal/parser.astNodeToMarshalNode", "cedar-marshal"},
@@ -482,6 +489,7 @@ type c10Chain struct {
 	entry  string
 	form   *vh.C10DeepForm
 	depths []int
+	run    bool // a long-run chain (c10_runs.go): linear input, depths = run lengths N
 }
 
 // wrap a value-json form for the entries that expect an enclosing document
@@ -588,6 +596,9 @@ func c10RunDeep(c *vh.Ctx, entries []*c10Entry) *c10DeepReport {
 			chains = append(chains, c10Chain{entry: en, form: f, depths: ds})
 		}
 	}
+	nDeep := len(chains)
+	runChains := c10RunChains(thorough)
+	chains = append(chains, runChains...)
 	nWorkers := 12
 	if n := runtime.NumCPU(); n < nWorkers {
 		nWorkers = n
@@ -607,7 +618,16 @@ func c10RunDeep(c *vh.Ctx, entries []*c10Entry) *c10DeepReport {
 			var w *c10Worker
 			defer func() { w.kill() }()
 			for chn := range ch {
-				row, finds, jobs := c10RunChain(&w, chn, budget, thorough)
+				var row map[string]any
+				var finds []vh.Finding
+				var jobs int
+				t0 := time.Now()
+				if chn.run {
+					row, finds, jobs = c10RunRunChain(&w, chn, budget, thorough)
+				} else {
+					row, finds, jobs = c10RunChain(&w, chn, budget, thorough)
+				}
+				row["wall_ms"] = time.Since(t0).Milliseconds()
 				mu.Lock()
 				if pf != nil {
 					pb, _ := json.Marshal(map[string]any{"row": row, "classes": c10Classes(finds)})
@@ -629,7 +649,7 @@ func c10RunDeep(c *vh.Ctx, entries []*c10Entry) *c10DeepReport {
 		return fmt.Sprint(rep.Table[i]["entry"], rep.Table[i]["form"]) < fmt.Sprint(rep.Table[j]["entry"], rep.Table[j]["form"])
 	})
 	sort.SliceStable(rep.Findings, func(i, j int) bool { return rep.Findings[i].Class < rep.Findings[j].Class })
-	rep.Notes = append(rep.Notes, fmt.Sprintf("deep nesting: %d (entry, form) chains, %d subprocess jobs, stack limit %d MiB", len(chains), rep.Jobs, c10MaxStack>>20))
+	rep.Notes = append(rep.Notes, fmt.Sprintf("deep nesting: %d (entry, form) chains + %d long-run chains (linear input, N up to %d), %d subprocess jobs, stack limit %d MiB", nDeep, len(runChains), c10MaxRunN(runChains), rep.Jobs, c10MaxStack>>20))
 	return rep
 }
 
